@@ -5,6 +5,7 @@
 (* A layout is a set of ENTRIES of a project directory.  An entry has       *)
 (*   kind    "file" | "dir" | "symfile" (symbolic link to a file)          *)
 (*           | "symdir" (symbolic link to a directory)                     *)
+(*           | "fifo" | "socket" (not regular files either)                *)
 (*   ext     the extension of its name as Rust's Path::extension sees it:  *)
 (*           "rs", "RS", "rsx", "bak" (x.rs.bak), "tmp" (x.rs.tmp), "rs~",   *)
 (*           "txt", "" (none; also a hidden file named ".rs")              *)
